@@ -229,8 +229,10 @@ func checkC05c(c c05cCase) (o vstat.Outcome) {
 				o.V = vstat.Viol("dial-credits-wrong-peer", "after %s: DialPeerAddr(X, %s) returned a link with %s", h(), a, lnk.GetRemotePeer())
 				return
 			}
-			if who == 1 && dt.linkAt(a) == nil {
-				o.V = vstat.Viol("dial-never-reaches-intended-peer", "after %s: X serves %s but a dial for X there produced no link within 4 s (%v; %d attempts)", h(), a, derr, dt.attemptsFor(X, a))
+			// eventual: a loss reported just before may still be being applied (the dial can then return the old
+			// link and the request is re-dialed right after)
+			if who == 1 && !waitFor(4*time.Second, func() bool { return dt.linkAt(a) != nil }) {
+				o.V = vstat.Viol("dial-never-reaches-intended-peer", "after %s: X serves %s but a dial for X there produced no link within 4+4 s (%v; %d attempts)", h(), a, derr, dt.attemptsFor(X, a))
 				return
 			}
 			if who != 1 {
